@@ -207,6 +207,11 @@ ENGINES["map_or"]["configs"]["quick"] += [mapcfg("map_or_s_samectx.cfg", 1, 2), 
 ENGINES["map_mv"]["configs"]["quick"] += [mapcfg("map_mv_s_samectx.cfg", 1, 2)]
 ENGINES["map_map_mv"]["configs"]["quick"] += [mapcfg("map_map_mv_s_samectx.cfg", 1, 2)]
 
+# ---- misuse configs (C17, second half): replicas 1 and 2 edit through ONE actor; only validate_merge is judged ----
+ENGINES["orswot"]["configs"]["quick"] += [orcfg("orswot_misuse.cfg", flags=("--vm-only", "--shared-actor"), inv=["TypeOK", "ValidateMergeFlags", "ValidateMergeSym"])]
+ENGINES["map_or"]["configs"]["quick"] += [{"cfg": "map_or_misuse.cfg", "module": "MC_Map.tla", "flags": ["--vm-only", "--shared-actor", "--m", "2", "--k", "2"], "invariants": ["TypeOK"]}]
+ENGINES["map_mv"]["configs"]["quick"] += [{"cfg": "map_mv_misuse.cfg", "module": "MC_Map.tla", "flags": ["--vm-only", "--shared-actor", "--m", "1", "--k", "2"], "invariants": ["TypeOK"]}]
+
 # ---- thorough tier = quick configs + larger exhaustive models ----------------------------------
 def _t(engine, extra):
     ENGINES[engine]["configs"]["thorough"] = list(ENGINES[engine]["configs"]["quick"]) + extra
